@@ -3980,3 +3980,128 @@ func mentionsNamedConst(info *types.Info, e ast.Expr) bool {
 	})
 	return found
 }
+
+// ---------------------------------------------------------------------------
+// tx-record-complete (C20) - the transaction record (DataExecutable) holds the transaction and its execution
+// result; native Ledger.getTransactionVMState, which any contract can call, reads the result's VM state out of it
+// (dao.GetTxExecResult). The record is therefore consensus-relevant for MaxTraceableBlocks blocks, and every writer
+// has to write the result part: a writer that passes a nil result leaves records for which the native method
+// answers NONE where a fully synchronised node answers HALT or FAULT.
+func ruleTxRecordComplete(c *Ctx) {
+	g := c.P.MRG()
+	reader := c.P.Func("pkg/core/dao", "Simple", "GetTxExecResult")
+	writer := c.P.Func("pkg/core/dao", "Simple", "StoreAsTransaction")
+	if reader == nil || writer == nil {
+		c.Lost("tx-record-complete.anchor", "dao.GetTxExecResult / dao.StoreAsTransaction not found")
+		return
+	}
+	// is the reader reachable from a native contract method?
+	rfn := c.P.SSAFunc(reader.Obj)
+	consumers := 0
+	if nd := g.Nodes[rfn]; nd != nil {
+		for _, e := range nd.In {
+			if e.Caller != nil && e.Caller.Fn != nil && e.Caller.Fn.Pkg != nil && strings.HasSuffix(e.Caller.Fn.Pkg.Pkg.Path(), "pkg/core/native") {
+				consumers++
+			}
+		}
+	}
+	if consumers == 0 {
+		c.Note("tx-record-complete.consumers", "no native contract reads the execution result out of the transaction record any more: the obligation on writers lapses")
+		return
+	}
+	wfn := c.P.SSAFunc(writer.Obj)
+	n := 0
+	if nd := g.Nodes[wfn]; nd != nil {
+		seen := map[string]bool{}
+		for _, e := range nd.In {
+			call, ok := e.Site.(ssa.CallInstruction)
+			if !ok || e.Caller == nil || e.Caller.Fn == nil {
+				continue
+			}
+			key := "tx-record-complete." + FnKey(e.Caller.Fn)
+			if seen[key] {
+				continue
+			}
+			seen[key] = true
+			n++
+			args := call.Common().Args
+			last := args[len(args)-1]
+			if cst, ok := last.(*ssa.Const); ok && cst.IsNil() {
+				c.Fail(key, c.P.Pos(e.Site.Pos()), fmt.Sprintf("%s stores transaction records without an execution result (nil), while native Ledger.getTransactionVMState reads the result's VM state out of the record: for these still traceable transactions the method answers NONE on this node and HALT/FAULT on a node that executed them - a later transaction that looks at the value executes differently", FnKey(e.Caller.Fn)))
+			} else {
+				c.OK(key, c.P.Pos(e.Site.Pos()), "stores the execution result with the transaction")
+			}
+		}
+	}
+	c.Floor("writers of transaction records", n, 2)
+}
+
+// ---------------------------------------------------------------------------
+// rollback-rc (C11) - moving the working trie back to an earlier root (the state-root module's ResetState) leaves
+// the node records as they are. In the modes that count references the records describe the top state: nodes of the
+// target state that later blocks replaced are marked inactive (hidden from a GC-mode trie) and every counter counts
+// occurrences in the abandoned trie. Such a rollback is sound only when the ledger refuses it in every counting mode
+// (KeepOnlyLatestState and RemoveUntraceableBlocks alike, whatever the height), or when ResetState rewrites the
+// records.
+func ruleRollbackRC(c *Ctx) {
+	rs := c.P.Func("pkg/core/stateroot", "Module", "ResetState")
+	caller := c.P.Func("pkg/core", "Blockchain", "resetStateInternal")
+	if rs == nil || caller == nil {
+		c.Lost("rollback-rc.anchor", "stateroot.ResetState / Blockchain.resetStateInternal not found")
+		return
+	}
+	g := c.P.MRG()
+	// does ResetState rewrite node records? (reaches a trie writer)
+	via := g.Reach([]*ssa.Function{c.P.SSAFunc(rs.Obj)}, nil)
+	rewrites := false
+	for fn := range via {
+		switch FnKey(fn) {
+		case "pkg/core/mpt.(*Trie).Flush", "pkg/core/mpt.(*Trie).PutBatch", "pkg/core/mpt.(*Trie).Put":
+			rewrites = true
+		}
+	}
+	f := c.P.NewFuncCFG(caller)
+	refuses := map[string]string{} // config field -> "always" | "conditional"
+	ast.Inspect(caller.Decl.Body, func(x ast.Node) bool {
+		is, ok := x.(*ast.IfStmt)
+		if !ok || len(is.Body.List) == 0 {
+			return true
+		}
+		if _, ok := is.Body.List[len(is.Body.List)-1].(*ast.ReturnStmt); !ok {
+			return true
+		}
+		for _, fld := range []string{"KeepOnlyLatestState", "RemoveUntraceableBlocks"} {
+			m := f.DirectMentions(is.Cond)
+			hit := false
+			for s := range m {
+				if strings.HasSuffix(s, "#"+fld) {
+					hit = true
+				}
+			}
+			if !hit {
+				continue
+			}
+			if _, ok := ast.Unparen(is.Cond).(*ast.SelectorExpr); ok {
+				refuses[fld] = "always"
+			} else if refuses[fld] == "" {
+				refuses[fld] = "conditional (" + trunc(types.ExprString(is.Cond), 80) + ")"
+			}
+		}
+		return true
+	})
+	for _, fld := range []string{"KeepOnlyLatestState", "RemoveUntraceableBlocks"} {
+		key := "rollback-rc." + fld
+		switch {
+		case rewrites:
+			c.OK(key, c.P.Pos(rs.Decl.Pos()), "ResetState rewrites the node records")
+		case refuses[fld] == "always":
+			c.OK(key, c.P.Pos(caller.Decl.Pos()), "the ledger refuses a state reset whenever "+fld+" is on")
+		default:
+			how := refuses[fld]
+			if how == "" {
+				how = "never"
+			}
+			c.Fail(key, c.P.Pos(caller.Decl.Pos()), fmt.Sprintf("with %s the trie counts references and marks replaced nodes inactive, yet the ledger refuses a state reset only %s and stateroot.ResetState re-roots the working trie at the earlier root without touching the node records: the nodes of the target state that later blocks replaced are hidden (or counted for the abandoned state), and the first block after the reset fails with 'key not found'", fld, how))
+		}
+	}
+}
